@@ -77,12 +77,24 @@ def _add_job(job):
     o, ln, base, lname = job
     obj = make_obj(o)
     isaddr = o[0] in AK
+    # the same address reached by changing the public number of an object that was built with another one: what goes
+    # into the frame is the address the object compares equal to (used for every other frame of the row)
+    moved = None
+    attr = {"gshort": "address", "dshort": "address", "ggroup": "group", "dgroup": "group"}.get(o[0])
+    if attr:
+        try:
+            moved = make_obj([o[0], (o[1] + 5) % (64 if attr == "address" else 16)])
+            setattr(moved, attr, o[1])
+            if not (moved == obj):
+                moved = None
+        except Exception:
+            moved = None
     cells = []
     rb = 1
-    for lo in LOWS[lname][1]:
+    for k, lo in enumerate(LOWS[lname][1]):
         f = Frame(ln, base + lo)
         try:
-            obj.add_to_frame(f)
+            (moved if moved is not None and k % 2 else obj).add_to_frame(f)
             g = f.as_integer
             if len(f) != ln:
                 g = -3
@@ -108,7 +120,15 @@ def _from_job(job):
         f = Frame(ln, base + lo)
         try:
             if kind == "from":
-                cells.append(acode(A.from_frame(f)))
+                a = A.from_frame(f)
+                cells.append(acode(a))
+                # the caller owns what it was handed: changing it must not reach later decodes
+                for attr in ("address", "group"):
+                    if isinstance(getattr(a, attr, None), int):
+                        try:
+                            setattr(a, attr, (getattr(a, attr) + 3) % 16)
+                        except Exception:
+                            pass
             else:
                 cells.append(icode(A.instance_from_frame(f)))
         except Exception:
